@@ -20,7 +20,9 @@ package c04
 
 import (
 	"fmt"
+	"os"
 	"runtime/debug"
+	"strings"
 	"time"
 
 	"gitlab.com/aquachain/aquachain/common/log"
@@ -38,13 +40,14 @@ func init() {
 			"branch of 23 fast blocks, extension, SetHead, re-import, Stop; three chain configs): every prefix. Pruning workloads (140-150 blocks: flush-every-block-above-128, " +
 			"flush-only-at-Stop, restart followed by a fork with pruned ancestors, and one with >100 KiB of pending key preimages): quick = every prefix within 40 events of a trie flush, " +
 			"reorg, Stop or restart plus every 7th elsewhere, thorough = every prefix. Write-failure leg: the j-th write of a workload returns an error (quick: every 3rd event of two " +
-			"archive workloads, every event of the flushes of two pruning workloads; thorough: every event), each in its own process. " +
+			"archive workloads, the flush/Stop/restart events of two pruning workloads and of the preimage-heavy one; thorough: every event of six workloads), each in its own process. Thorough only: the same workloads on a LevelDB directory in a process that SIGKILLs itself after a PRNG-chosen write; the directory must equal the write prefix and pass the same reopen oracle. " +
 			"A crash point is non-trivial when it cuts inside the write group of one API call (not between calls, not between two blocks of one call); distinct = (workload, prefix length).",
 		Legs: func(tier string) []fw.Leg {
 			if tier == "thorough" {
 				return []fw.Leg{
 					{Name: "prefix", Variant: "plain", Batches: len(prefixSpecs(tier, 0)), Timeout: 120 * time.Minute},
 					{Name: "fail", Variant: "plain", Batches: len(failSpecs(tier, 0)), Timeout: 120 * time.Minute},
+					{Name: "kill", Variant: "plain", Batches: len(killSpecs(tier, 0)), Timeout: 120 * time.Minute},
 				}
 			}
 			return []fw.Leg{
@@ -54,33 +57,15 @@ func init() {
 		},
 		Run: run,
 		Gate: func(tier string) map[string]int {
-			return map[string]int{
-				"workload_runs":                           16,
-				"workload_prune_restart":                  1,
-				"reopened":                                2500,
-				"refeed_converged":                        2500,
-				"state_fully_read":                        2500,
-				"state_with_storage_and_code":             1500,
-				"index_walked_to_genesis":                 2500,
-				"root_present_checked":                    50000,
-				"cut_inside_write_group":                  2500,
-				"cut_import_reorg":                        300,
-				"cut_import_flush":                        10,
-				"cut_stop":                                10,
-				"clean_stop_points":                       4,
-				"workload_reorg_to_longer":                6,
-				"workload_reorg_to_shorter_heavier":       3,
-				"workload_pruned_ancestor_import":         1,
-				"workload_preimage_batch_mid_flush":       1,
-				"workload_trie_commit_in_several_batches": 1,
-				"head_is_flushed_ancestor_of_pointer":     100,
-				"fail_injected":                           150,
-				"fail_process_exited_by_crit":             50,
-				"fail_survived_and_checked":               50,
-				"fail_on_trie_or_preimage_batch":          30,
-				"fail_on_preimage_batch_mid_flush":        1,
+			g := gates()
+			if tier == "thorough" {
+				g["sigkill_runs"] = 150
+				g["sigkill_disk_equals_prefix"] = 150
+				g["sigkill_inside_write_group"] = 100
 			}
+			return g
 		},
+
 		AnchorFiles: []string{"/core/blockchain.go", "/core/headerchain.go", "/core/database_util.go", "/trie/database.go", "/core/state/statedb.go"},
 		Assumptions: []string{
 			"crash model: the process dies between two logical writes; a batch flush is atomic (LevelDB's batch atomicity is trusted); torn single puts and reordering below the store are out of model",
@@ -100,6 +85,9 @@ func run(c *fw.Ctx) {
 	// header hashing (argon2id) allocates per call: trade memory for fewer
 	// collections; verdicts do not depend on it
 	debug.SetGCPercent(400)
+	if !selectedBatch(c) {
+		return
+	}
 	switch c.Leg {
 	case "prefix":
 		specs := prefixSpecs(c.Tier, c.Seed)
@@ -107,7 +95,61 @@ func run(c *fw.Ctx) {
 	case "fail":
 		specs := failSpecs(c.Tier, c.Seed)
 		runFail(c, specs[c.Batch%len(specs)])
+	case "kill":
+		specs := killSpecs(c.Tier, c.Seed)
+		runKill(c, specs[c.Batch%len(specs)])
 	}
+}
+
+func gates() map[string]int {
+	return map[string]int{
+		"workload_runs":                           16,
+		"workload_prune_restart":                  1,
+		"reopened":                                2500,
+		"refeed_converged":                        2500,
+		"state_fully_read":                        2500,
+		"state_with_storage_and_code":             1500,
+		"index_walked_to_genesis":                 2500,
+		"root_present_checked":                    50000,
+		"cut_inside_write_group":                  2500,
+		"cut_import_reorg":                        300,
+		"cut_import_flush":                        10,
+		"cut_stop":                                10,
+		"clean_stop_points":                       4,
+		"workload_reorg_to_longer":                6,
+		"workload_reorg_to_shorter_heavier":       3,
+		"workload_pruned_ancestor_import":         1,
+		"workload_preimage_batch_mid_flush":       1,
+		"workload_trie_commit_in_several_batches": 1,
+		"head_is_flushed_ancestor_of_pointer":     100,
+		"fail_injected":                           150,
+		"fail_process_exited_by_crit":             50,
+		"fail_survived_and_checked":               50,
+		"fail_on_trie_or_preimage_batch":          30,
+		"fail_on_preimage_batch_mid_flush":        1,
+	}
+}
+
+// selectedBatch implements the developer aid VERIF_C04_ONLY="prefix:0,9 fail:12":
+// only the listed batches run (break-it validation of one mechanism without the
+// whole tier). Unset in every registered run.
+func selectedBatch(c *fw.Ctx) bool {
+	only := os.Getenv("VERIF_C04_ONLY")
+	if only == "" {
+		return true
+	}
+	for _, part := range strings.Fields(only) {
+		leg, list, ok := strings.Cut(part, ":")
+		if !ok || leg != c.Leg {
+			continue
+		}
+		for _, b := range strings.Split(list, ",") {
+			if b == fmt.Sprint(c.Batch) {
+				return true
+			}
+		}
+	}
+	return false
 }
 
 // prefixSpecs: one workload per batch.
@@ -198,7 +240,10 @@ func runPrefix(c *fw.Ctx, spec Spec) {
 		run := wl.Execute(nil, nil)
 		for i, e := range run.StepErrs {
 			if e != "" {
-				c.Violate("crash_free_run_fails", "workload", stable(e), fmt.Sprintf("step %d: %s", i, e))
+				// not a crash-consistency verdict: without a clean reference run
+				// nothing is checked and the observation gates fail the run
+				c.Note("crash-free run of %s failed at step %d: %s", spec.Name, i, e)
+				c.Inconclusive("crash_free_run_error")
 				return
 			}
 		}
